@@ -105,8 +105,12 @@ class Result:
             self.nt_fps |= other.nt_fps
         self.hist.update(other.hist)
         for s in other.samples:
-            if len(self.samples) < MAX_SAMPLES and s not in self.samples:
-                self.samples.append(s)
+            if len(self.samples) >= MAX_SAMPLES or s in self.samples:
+                continue
+            if isinstance(s, dict) and "class" in s and any(
+                    isinstance(t, dict) and t.get("class") == s["class"] for t in self.samples):
+                continue
+            self.samples.append(s)
         for sig, v in other.violations.items():
             cur = self.violations.get(sig)
             if cur is None or v["size"] < cur["size"]:
